@@ -899,12 +899,28 @@ func runFree(c *Case) ([]histEntry, error) {
 	call := seq.Add(1)
 	tree, probs := Observe(stk.FS, "/", ObsOpts{})
 	hist = append(hist, histEntry{Client: len(c.Progs), Op: Op{K: "final-tree"}, Call: call, Ret: seq.Add(1), Final: tree, Probs: probs})
+	// the final state is reproducible from the tape (same clause as in the simulated mode)
+	x := &SeqCtx{W: w, St: stk, Ex: NewExec(stk.FS, nil), Case: c, Stats: NewStats(), Relax: Relax{"root-name": true}}
+	if v := rebuildEquivalence(x, len(hist), nil); v != nil {
+		v.Oracle = "final-state-" + v.Oracle
+		return hist, &freeViolation{v}
+	}
 	return hist, nil
 }
+
+// freeViolation carries a verdict out of runFree through its error result.
+type freeViolation struct{ v *Violation }
+
+func (f *freeViolation) Error() string { return f.v.String() }
 
 // freeVerdict runs the case once free-running and judges the recorded history.
 func freeVerdict(c *Case, st *Stats) (*Violation, error) {
 	hist, err := runFree(c)
+	if fv, ok := err.(*freeViolation); ok {
+		fv.v.Prop = "C11"
+		fv.v.Oracle += "-real-threads"
+		return fv.v, nil
+	}
 	if err != nil {
 		return nil, err
 	}
